@@ -199,7 +199,7 @@ def _handlers(ctx):
                 else:
                     ctx.ob('C09.D2', '%s: %s cannot raise' % (label, norm(n.func)), True, '%s:%d' % (FP, n.lineno))
     ctx.count('calls inside exception handlers', n_calls)
-    ctx.floor('calls inside exception handlers', n_calls, 8)
+    ctx.floor('calls inside exception handlers', n_calls, 5)
     # ZincParseException.__init__: decoration inside its own catch-all
     try:
         init = m.func('zincparser', 'ZincParseException.__init__')
@@ -258,7 +258,7 @@ def _actions(ctx):
                 ctx.ob('C09.D3', 'parse action of %s raises only ValueError-family exceptions' % node.label(), True,
                        '%s:%s' % (FP, node.lineno))
     ctx.count('parse actions analysed', n_actions)
-    ctx.floor('parse actions analysed', n_actions, 20)
+    ctx.floor('parse actions analysed', n_actions, 15)
     if unknown:
         ctx.note('untabled callees in parse actions (not judged): %s' % sorted(unknown))
     # XStr.__init__
